@@ -73,6 +73,34 @@ var skelGroups = []struct {
 	}},
 }
 
+// whole files: every function of every Go file a property is anchored in (the big visitors and
+// VM.execute are rendered clause by clause further down and are left out here)
+var fileGroups = []string{
+	"cmd/mfmt/main.go",
+	"internal/exporter/collectd.go", "internal/exporter/export.go", "internal/exporter/graphite.go", "internal/exporter/json.go",
+	"internal/exporter/prometheus.go", "internal/exporter/statsd.go", "internal/exporter/varz.go",
+	"internal/metrics/datum/buckets.go", "internal/metrics/datum/datum.go", "internal/metrics/datum/float.go",
+	"internal/metrics/datum/int.go", "internal/metrics/datum/string.go", "internal/metrics/metric.go", "internal/metrics/store.go",
+	"internal/mtail/mtail.go",
+	"internal/runtime/compiler/ast/ast.go", "internal/runtime/compiler/ast/walk.go", "internal/runtime/compiler/position/position.go",
+	"internal/runtime/compiler/checker/checker.go", "internal/runtime/compiler/codegen/codegen.go", "internal/runtime/compiler/compiler.go",
+	"internal/runtime/compiler/opt/opt.go", "internal/runtime/compiler/parser/driver.go", "internal/runtime/compiler/parser/unparser.go",
+	"internal/runtime/compiler/symbol/symtab.go", "internal/runtime/compiler/types/types.go",
+	"internal/runtime/runtime.go", "internal/runtime/vm/vm.go",
+	"internal/tailer/logstream/cancel.go", "internal/tailer/logstream/dgramstream.go", "internal/tailer/logstream/fifostream.go",
+	"internal/tailer/logstream/filestream.go", "internal/tailer/logstream/reader.go", "internal/tailer/logstream/socketstream.go",
+	"internal/tailer/logstream/logstream.go", "internal/tailer/tail.go",
+}
+
+func fileGroupName(path string) string {
+	p := strings.TrimSuffix(path, ".go")
+	parts := strings.Split(p, "/")
+	if len(parts) >= 2 {
+		parts = parts[len(parts)-2:]
+	}
+	return "F_" + strings.Join(parts, "_")
+}
+
 // functions that are one big switch: one string per clause
 var clauseGroups = []struct {
 	name, file, recv, fn string
@@ -231,6 +259,41 @@ func init() {
 				fmt.Fprintf(&b, "def %s : String := %s\n", n, leanStr(skeleton(lf, fd.Body.List)))
 			}
 			b.WriteString("end Lex\n")
+		}
+		for _, path := range fileGroups {
+			pf := parse(path)
+			if pf == nil {
+				shapeErr("Skeletons", "%s: not found", path)
+				continue
+			}
+			fmt.Fprintf(&b, "namespace %s\n", fileGroupName(path))
+			seen := map[string]int{}
+			for _, d := range pf.f.Decls {
+				fd, ok := d.(*ast.FuncDecl)
+				if !ok || fd.Body == nil {
+					continue
+				}
+				n := fd.Name.Name
+				if n == "VisitBefore" || n == "VisitAfter" || n == "execute" {
+					continue
+				}
+				if fd.Recv != nil && len(fd.Recv.List) == 1 {
+					t := fd.Recv.List[0].Type
+					if s, ok := t.(*ast.StarExpr); ok {
+						t = s.X
+					}
+					if id, ok := t.(*ast.Ident); ok {
+						n = id.Name + "_" + n
+					}
+				}
+				n = "f_" + n
+				seen[n]++
+				if seen[n] > 1 {
+					n = fmt.Sprintf("%s_%d", n, seen[n])
+				}
+				fmt.Fprintf(&b, "def %s : String := %s\n", n, leanStr(skeleton(pf, fd.Body.List)))
+			}
+			fmt.Fprintf(&b, "end %s\n", fileGroupName(path))
 		}
 		for _, g := range clauseGroups {
 			f := parse(g.file)
